@@ -5,6 +5,7 @@ import (
 	"reflect"
 	"regexp"
 	"sort"
+	"strconv"
 	"strings"
 	"unicode/utf8"
 
@@ -456,6 +457,7 @@ func baseEnv() *Env {
 }
 
 var reSpace = regexp.MustCompile(`\s+`)
+var reNumber = regexp.MustCompile(`^-?[0-9]+(\.[0-9]+)?([Ee][-+]?[0-9]+)?$`)
 
 func ctxArgc(n int) func([]Value) bool { return func(a []Value) bool { return len(a) == n } }
 
@@ -710,6 +712,71 @@ func builtins() []*Builtin {
 			}
 			return s, nil
 		}},
+		{"pad", []string{"str", "int", "str?"}, 0, func(a []Value) bool {
+			switch len(a) {
+			case 1:
+				return isNum(a[0])
+			case 2:
+				return isNum(a[0]) && isStr(a[1])
+			}
+			return false
+		}, func(ev *Evaluator, a []Value) (Value, *Err) {
+			s := []rune(str(a[0]))
+			w := int(num(a[1]))
+			aw := w
+			if aw < 0 {
+				aw = -aw
+			}
+			if aw > 10000 {
+				return Undef, unsupported("size-bound: pad width")
+			}
+			n := aw - len(s)
+			if n <= 0 {
+				return string(s), nil
+			}
+			pad := []rune(" ")
+			if !IsUndef(a[2]) && str(a[2]) != "" {
+				pad = []rune(str(a[2]))
+			}
+			fill := make([]rune, n)
+			for i := range fill {
+				fill[i] = pad[i%len(pad)]
+			}
+			if w < 0 {
+				return string(fill) + string(s), nil
+			}
+			return string(s) + string(fill), nil
+		}},
+		{"split", []string{"str", "strfn", "int?"}, 0, func(a []Value) bool {
+			switch len(a) {
+			case 1:
+				return isStr(a[0]) || isFunc(a[0])
+			case 2:
+				return (isStr(a[0]) || isFunc(a[0])) && isNum(a[1])
+			}
+			return false
+		}, func(ev *Evaluator, a []Value) (Value, *Err) {
+			sep, ok := a[1].(string)
+			if !ok {
+				return Undef, unsupported("regex split")
+			}
+			lim := -1
+			if !IsUndef(a[2]) {
+				lim = int(num(a[2]))
+				if lim < 0 {
+					return Undef, otherErr("split limit")
+				}
+			}
+			parts := strings.Split(str(a[0]), sep)
+			if lim >= 0 && lim < len(parts) {
+				parts = parts[:lim]
+			}
+			out := make([]interface{}, len(parts))
+			for i, p := range parts {
+				out[i] = p
+			}
+			return out, nil
+		}},
 		{"contains", []string{"str", "strfn"}, 0, c1, func(ev *Evaluator, a []Value) (Value, *Err) {
 			p, ok := a[1].(string)
 			if !ok {
@@ -752,7 +819,13 @@ func builtins() []*Builtin {
 			case float64:
 				return x, nil
 			}
-			return Undef, unsupported("number of string")
+			s := str(a[0])
+			if reNumber.MatchString(s) {
+				if f, err := strconv.ParseFloat(s, 64); err == nil {
+					return f, nil
+				}
+			}
+			return Undef, otherErr("number: " + s)
 		}},
 		{"abs", []string{"num"}, 0, c0, func(ev *Evaluator, a []Value) (Value, *Err) { return math.Abs(num(a[0])), nil }},
 		{"floor", []string{"num"}, 0, c0, func(ev *Evaluator, a []Value) (Value, *Err) { return math.Floor(num(a[0])), nil }},
@@ -875,6 +948,12 @@ func builtins() []*Builtin {
 				return out, nil
 			}
 			return Undef, otherErr("sort")
+		}},
+		{"shuffle", []string{"any"}, 0, nil, func(ev *Evaluator, a []Value) (Value, *Err) {
+			// some permutation: the model returns the identity; callers only use
+			// order-insensitive consumers ($count) or judge by law
+			arr, _ := forceArray(a[0])
+			return append([]interface{}{}, arr...), nil
 		}},
 		{"zip", []string{"any..."}, -1, nil, func(ev *Evaluator, a []Value) (Value, *Err) {
 			if len(a) == 0 {
